@@ -13,6 +13,11 @@ ENGINES = [
 NOTES = "All checks: ./check <ID> --tier quick|thorough; exit 0 held / 1 VIOLATION / 2 harness error. Code under test is /repo's working tree (sys.path[0]); the harness installs numpy.Inf=numpy.inf in its own process (NumPy 2 compatibility, DESIGN 0.1)."
 NA = {}
 CHECKS = {
+ "C19": {
+  "technique": "model-based property-based testing over a grammar of decay cards: Hypothesis-generated 3-/4-body cards (candidate lists, per-decay option mappings at any position, wrong-fermion-number candidates) are loaded in a history X, Y (same names, other quantum numbers), X, equivalent forms of X in one process; an independent enumeration of the declared decay tree with an independent (l,s) rule is the reference for chains, vertices, quantum numbers and partial waves; repeated loads must be identical; alias / $include-with-override / expanded / split-option / key-permuted forms must load to the same model; as_config() -> load must reproduce chains and quantum numbers",
+  "text": "About 1200 card histories (8-10 loads each) per quick run, 4e4 thorough. Exploration level over a combinatorial grammar.",
+  "note": "Trusted: the harness's enumeration of declared decays and its selection rule (the same rule as the C13 oracle), PyYAML for include files. After key permutation / candidate expansion chain and parameter-name sets are compared (the reference coupling depends on order by design); random initial couplings are not compared; the export does not carry l_list, so partial waves are not compared after the export round trip.",
+ },
  "C05": {
   "technique": "differential property-based testing: every generated decay structure is rebuilt under each evaluation strategy selectable in the data section (cached_amp +stripped data, cached_shape, base_factor, p4_directly, use_tf_function +no_id_cached, jit_compile, lazy_call) and compared with plain eager evaluation on the first call, the second call on the same data object, after a change of the couplings, after restoring them, and with a chain subset; the likelihood value and gradient of cached-integral / cached-amplitude / lazy / traced configurations are compared with the default model; every contraction the amplitude builder emits, plus Hypothesis-generated contraction programs, are compared with numpy.einsum (a raise counts as 'declined')",
   "text": "About 64 structures x 3-4 strategies x 5 comparisons, 12 likelihood cases and 4000 contraction programs per quick run (1200 / 300 / 2.3e5 thorough). Exploration level.",
